@@ -97,6 +97,12 @@ def check_case(case, ctx):
                 os.write(fd, enc)
                 os.close(fd)
                 fh = open(tmp, "rb")
+            elif case.get("mmap"):
+                import mmap
+
+                fh = mmap.mmap(-1, len(enc))
+                fh.write(enc)
+                fh.seek(0)
             else:
                 fh = io.BytesIO(enc)
             try:
@@ -117,7 +123,7 @@ def check_case(case, ctx):
         ops = case["ops"]
         nt = any(o[0] == "read" and (o[1] is None or o[1] != 0) for o in ops) and len(plain) > 0
         ctx.ok(fp=(enc, repr(ops)), nontrivial=nt, case=case, classes=(
-            f"len%4={len(plain) % 4}", f"sizefield:{'ok' if case.get('size_ok', True) and not case.get('trailing') else 'inconsistent'}", "file:real" if case.get("realfile") else "file:bytesio",
+            f"len%4={len(plain) % 4}", f"sizefield:{'ok' if case.get('size_ok', True) and not case.get('trailing') else 'inconsistent'}", "file:real" if case.get("realfile") else "file:mmap" if case.get("mmap") else "file:bytesio",
             *{f"op:{o[0]}{'' if o[0] != 'seek' else o[2]}" for o in ops}))
     elif case["op"] == "detect":
         plain, nonce, stub = case["plain"], case["nonce"], case["stub"]
@@ -250,6 +256,24 @@ def gen_ops(rng, plen, nops):
     return ops
 
 
+def inrange_ops(ops, total):
+    """the sub-history whose seeks stay within [0, total] (a memory mapping refuses positions beyond its end, which is
+    the mapping's behaviour, not the view's)"""
+    model = io.BytesIO(bytes(total))
+    out = []
+    for op in ops:
+        if op[0] == "seek":
+            _, off, whence = op
+            target = off if whence == 0 else model.tell() + off if whence == 1 else total + off
+            if not 0 <= target <= total:
+                continue
+            model.seek(off, whence)
+        elif op[0] == "read":
+            model.read() if op[1] is None else model.read(op[1])
+        out.append(op)
+    return out
+
+
 def plan(tier, seed):
     q = tier == "quick"
     shards = []
@@ -285,8 +309,11 @@ def run_shard(shard, ctx):
             ops = gen_ops(rng, plen, rng.randrange(1, 61))
             trailing = P.filler(rng, rng.randrange(1, 30)) if rng.random() < 0.15 else b""
             ops = gen_ops(rng, plen + len(trailing), len(ops)) if trailing else ops
+            kind_r = rng.random()
+            if 0.03 <= kind_r < 0.08:
+                ops = inrange_ops(ops, plen + len(trailing))
             check_case({"op": "history", "plain": plain, "nonce": nonce, "stub": stub, "ops": ops, "size_ok": rng.random() < 0.7, "trailing": trailing,
-                        "marker": rng.random() < 0.5, "realfile": rng.random() < 0.03}, ctx)
+                        "marker": rng.random() < 0.5, "realfile": kind_r < 0.03, "mmap": 0.03 <= kind_r < 0.08}, ctx)
     elif kind == "detect":
         for i in range(shard["n"]):
             if ctx.out_of_time():
@@ -322,7 +349,11 @@ def run_shard(shard, ctx):
                 pos = rng.randrange(0, len(b) - 5)
                 b[pos : pos + 3] = b"\xff\xff\xff"
                 stub = bytes(b)
-            check_case({"op": "detect", "plain": plain, "nonce": rng.randbytes(4), "stub": stub, "marker": marker,
+            nonce = rng.randbytes(4)
+            if marker and rng.random() < 0.45:
+                # the run of ff bytes of the marker continues into the nonce
+                nonce = rng.choice([b"\xff" + rng.randbytes(3), b"\xff\xff" + rng.randbytes(2), b"\xff\xff\xff\xff", rng.randbytes(3) + b"\xff"])
+            check_case({"op": "detect", "plain": plain, "nonce": nonce, "stub": stub, "marker": marker,
                         "size_ok": size_ok, "trailing": trailing, "prepend": prepend,
                         "maxrange": rng.choice([0, 0, 1, 8, 100, 2000]) if (marker or (size_ok and not trailing)) else 0,
                         "fhpos": rng.choice([None, None, -1, 1, len(stub) + 3, len(stub) + 11, rng.randrange(0, 5000)])}, ctx)
